@@ -768,4 +768,43 @@ def unmarshalAnyTo {M : Type} (unmarshal : Url → Bytes → Option M) (expected
       | some m => .ok (some m)
       | none => .err .unmarshal
 
+/-! ### decoding into a destination the caller supplies
+
+`UnmarshalAnypbTo(src, dst)` writes into a message the caller hands in. What the decoder returns must be
+a function of the encoded value alone: `anypb.UnmarshalTo(src, dst, proto.UnmarshalOptions{})` resets
+`dst` before it unmarshals (only `Merge: true` would keep what `dst` held). A message is its populated
+fields here — (field number, canonical encoding of the value), ascending, one entry per number. -/
+
+abbrev Fields := List (Nat × Bytes)
+
+/-- store one field: replaces the entry of the same number, keeps the order -/
+def setField (m : Fields) (f : Nat × Bytes) : Fields :=
+  match m with
+  | [] => [f]
+  | g :: rest =>
+    if f.1 < g.1 then f :: g :: rest
+    else if f.1 = g.1 then f :: rest
+    else g :: setField rest f
+
+/-- merge-unmarshalling of singular fields: every field the wire value carries replaces the
+destination's field of that number, the destination's other fields stay -/
+def mergeFields (dst v : Fields) : Fields := v.foldl setField dst
+
+/-- `proto.UnmarshalOptions{Merge: merge}.Unmarshal(b, dst)`; `decode b` = the fields the bytes carry
+(`none`: malformed). Without `Merge` the destination is reset first. -/
+def unmarshalInto (merge : Bool) (decode : Bytes → Option Fields) (b : Bytes) (prior : Fields) : Option Fields :=
+  (decode b).map fun v => mergeFields (if merge then prior else []) v
+
+/-- `UnmarshalAnypbTo(src, dst)` with `dst` holding `prior`. `merge = false` is the code under test.
+`.ok none`: there are no parameters (`src == nil`); the destination is not part of the result then. -/
+def unmarshalAnyInto (merge : Bool) (decode : Url → Bytes → Option Fields) (expected : Option Url)
+    (src : Option AnyMsg) (prior : Fields) : Outcome (Option Fields) :=
+  (restoreUrl expected src).bind fun r =>
+    match r with
+    | none => .ok none
+    | some a =>
+      match unmarshalInto merge (decode a.typeUrl) a.value prior with
+      | some m => .ok (some m)
+      | none => .err .unmarshal
+
 end CJ.Codec
